@@ -654,3 +654,137 @@ def _mtvrp_preset(u, preset):
 
 for _p in ("ovrp", "vrpb", "vrpl", "vrptw", "ovrptw", "vrpbltw", "ovrpbltw"):
     unit(f"mtvrp.generator.subsample.{_p}", file=MTG, func="MTVRPGenerator.subsample_problems", props=("C18",))(lambda u, _p=_p: _mtvrp_preset(u, _p))
+
+
+FJG = "rl4co/envs/scheduling/fjsp/generator.py"
+
+
+def _fjsp_gen(u, M, same_mean=False, **kw):
+    pmin, pmax = u.scalar("min_processing_time", "i"), u.scalar("max_processing_time", "i")
+    u.requires(AND(pmin >= 1, pmin <= pmax))
+    return u.obj(FJG, "FJSPGenerator", num_mas=M, min_processing_time=pmin, max_processing_time=pmax, same_mean_per_op=same_mean, **kw), pmin, pmax
+
+
+@unit("fjsp.generator.processing_times", file=FJG, func="FJSPGenerator._simulate_processing_times", props=("C18",))
+def _(u):
+    B, O = u.dims("B O")
+    M = 3                                                            # machines (the shuffled axis: concrete; batch, operations symbolic)
+    gen, pmin, pmax = _fjsp_gen(u, M)
+    n_el = u.tensor("n_eligible_per_ops", (B, O), "i")
+    u.requires(u.forall((B, O), lambda b, o: AND(n_el.at(b, o) >= 0, n_el.at(b, o) <= M)))
+    pt = u.run(FJG, "FJSPGenerator._simulate_processing_times", n_el, selfobj=gen, record=False)
+    b, o, m = u.idx((B,), "b"), u.idx((O,), "o"), u.idx((M,), "m")
+    u.prove("shape", shape_is(pt, (B, M, O)))
+    u.prove("times-zero-or-in-range", OR(pt.at(b, m, o) == 0, AND(pt.at(b, m, o) >= pmin, pt.at(b, m, o) <= pmax)))
+    # every operation that was given at least one eligible machine can be processed somewhere; padded operations (0 eligible) nowhere
+    u.prove("eligible-somewhere", IMPL(n_el.at(b, o) >= 1, u.exists((M,), lambda m2: pt.at(b, m2, o) > 0)))
+    u.prove("padded-nowhere", IMPL(n_el.at(b, o) == 0, pt.at(b, m, o) == 0))
+    u.prove("fully-flexible-everywhere", IMPL(n_el.at(b, o) == M, pt.at(b, m, o) > 0))
+    u.canary("eligible-on-machine-0", IMPL(n_el.at(b, o) >= 1, pt.at(b, 0, o) > 0))
+
+
+@unit("fjsp.generator.generate", file=FJG, func="FJSPGenerator._generate", props=("C18",))
+def _(u):
+    B, J, O = u.dims("B J O")
+    M = 3
+    omin, omax = u.scalar("min_ops_per_job", "i"), u.scalar("max_ops_per_job", "i")
+    emin, emax = u.scalar("min_eligible_ma_per_op", "i"), u.scalar("max_eligible_ma_per_op", "i")
+    u.requires(AND(omin >= 1, omin <= omax, emin >= 1, emin <= emax, emax <= M))
+    gen, pmin, pmax = _fjsp_gen(u, M, num_jobs=J, n_ops_max=O, min_ops_per_job=omin, max_ops_per_job=omax, min_eligible_ma_per_op=emin, max_eligible_ma_per_op=emax)
+    u.inline((FJG, "FJSPGenerator._simulate_processing_times"))
+    td = u.run(FJG, "FJSPGenerator._generate", [B], selfobj=gen, record=False)
+    b, j, o, m = u.idx((B,), "b"), u.idx((J,), "j"), u.idx((O,), "o"), u.idx((M,), "m")
+    j2 = u.idx((J - 1,), "j2")
+    st, en, pt, pad = td["start_op_per_job"], td["end_op_per_job"], td["proc_times"], td["pad_mask"]
+    u.prove("keys", sorted(td.keys()) == ["end_op_per_job", "pad_mask", "proc_times", "start_op_per_job"])
+    u.prove("shapes", AND(shape_is(st, (B, J)), shape_is(en, (B, J)), shape_is(pt, (B, M, O)), shape_is(pad, (B, O)), st.dtype == "i", en.dtype == "i", pad.dtype == "b"))
+    # jobs are consecutive, non-empty blocks of operations starting at operation 0
+    u.prove("jobs.first-starts-at-zero", st.at(b, 0) == 0)
+    u.prove("jobs.consecutive", st.at(b, j2 + 1) == en.at(b, j2) + 1)
+    from tvc.unit import prefix_sum_step
+    for r in [r for r in u.ctx.reds.values() if r.label == "cumsum"]:
+        prefix_sum_step(u, r, (b, j), 1)                             # end_op_per_job = cumsum(n_ope_per_job) - 1, unfolded at job j
+    u.prove("jobs.non-empty-and-within-size", AND(en.at(b, j) - st.at(b, j) + 1 >= omin, en.at(b, j) - st.at(b, j) + 1 <= omax))
+    # the padding mask marks exactly the operation slots after the last job
+    u.prove("padding-is-after-the-last-job", pad.at(b, o) == (zint(o) > en.at(b, J - 1)))
+    # every real operation is eligible on at least one machine; padded slots on none
+    u.prove("real-operations-eligible-somewhere", IMPL(NOT(pad.at(b, o)), u.exists((M,), lambda m2: pt.at(b, m2, o) > 0)))
+    u.prove("padded-slots-nowhere", IMPL(pad.at(b, o), pt.at(b, m, o) == 0))
+    u.canary("nothing-padded", NOT(pad.at(b, o)))
+
+
+JSG = "rl4co/envs/scheduling/jssp/generator.py"
+
+
+def _jssp_times(u, one2one):
+    B = u.dim("B")
+    J, M = 2, 3                                                      # jobs x machines of the one-to-one map (flattened axis: concrete); else only M matters
+    pmin, pmax = u.scalar("min_processing_time", "i"), u.scalar("max_processing_time", "i")
+    u.requires(AND(pmin >= 1, pmin <= pmax))
+    O = J * M if one2one else u.dim("O")
+    gen = u.obj(JSG, "JSSPGenerator", num_jobs=J, num_mas=M, min_processing_time=pmin, max_processing_time=pmax, one2one_ma_map=one2one)
+    # the generator's own assert ("exactly one machine can process an operation") is an obligation here, not a hypothesis
+    pt = u.run(JSG, "JSSPGenerator._simulate_processing_times", [B], O, selfobj=gen, record=False)
+    b, o, m = u.idx((B,), "b"), u.idx((O,), "o"), u.idx((M,), "m")
+    m2 = u.idx((M,), "m2")
+    u.prove("shape", AND(shape_is(pt, (B, M, O)), pt.dtype == "f"))
+    u.prove("times-zero-or-in-range", OR(pt.at(b, m, o) == 0, AND(pt.at(b, m, o) >= pmin, pt.at(b, m, o) <= pmax)))
+    u.prove("exactly-one-machine.at-least", u.exists((M,), lambda k: pt.at(b, k, o) > 0))
+    u.prove("exactly-one-machine.at-most", IMPL(AND(pt.at(b, m, o) > 0, pt.at(b, m2, o) > 0), m == m2))
+    if one2one:
+        # every job visits every machine exactly once: the operations of job j are o = j*M .. j*M + M - 1
+        j = u.idx((J,), "j")
+        k1, k2 = u.idx((M,), "k1"), u.idx((M,), "k2")
+        u.prove("one2one.job-visits-each-machine-once", IMPL(AND(pt.at(b, m, zint(j) * M + k1) > 0, pt.at(b, m, zint(j) * M + k2) > 0), k1 == k2))
+    u.canary("machine-0-processes-everything", pt.at(b, 0, o) > 0)
+
+
+for _o in (False, True):
+    unit("jssp.generator.processing_times." + ("one2one" if _o else "random"), file=JSG, func="JSSPGenerator._simulate_processing_times", props=("C18",))(lambda u, _o=_o: _jssp_times(u, _o))
+
+
+FFG = "rl4co/envs/scheduling/ffsp/generator.py"
+
+
+@unit("ffsp.generator.generate", file=FFG, func="FFSPGenerator._generate", props=("C18",))
+def _(u):
+    B, J, MT = u.dims("B J MT")
+    tmin, tmax = u.scalar("min_time", "i"), u.scalar("max_time", "i")
+    u.requires(AND(tmin >= 1, tmin < tmax))
+    gen = u.obj(FFG, "FFSPGenerator", num_job=J, num_machine_total=MT, min_time=tmin, max_time=tmax)
+    td = u.run(FFG, "FFSPGenerator._generate", [B], selfobj=gen, record=False)
+    b, j, m = u.idx((B,), "b"), u.idx((J,), "j"), u.idx((MT,), "m")
+    rt = td["run_time"]
+    u.prove("run_time", AND(shape_is(rt, (B, J, MT)), rt.dtype == "i", rt.at(b, j, m) >= tmin, rt.at(b, j, m) < tmax, sorted(td.keys()) == ["run_time"], tuple(td.batch_size) == (B,)))
+    u.canary("run_time-reaches-max", rt.at(b, j, m) < tmax - 1)
+
+
+ATG = "rl4co/envs/routing/atsp/generator.py"
+
+
+@unit("atsp.generator.generate.tmat", file=ATG, func="ATSPGenerator._generate", props=("C18",))
+def _(u):
+    from tvc.interp import LoopInvariant
+    from .checkers import carried
+
+    B, N = u.dims("B N")
+    dmin, dmax = u.scalar("min_dist", "f"), u.scalar("max_dist", "f")
+    u.requires(AND(dmin >= 0, dmin <= dmax))
+    gen = u.obj(ATG, "ATSPGenerator", num_loc=N, min_dist=dmin, max_dist=dmax, tmat_class=True, dist_sampler=_sampler(u, "dist", zreal(0), zreal(1)))
+
+    def inv(env, i):
+        d = carried(env, "dms", "f")
+        return [("non-negative-zero-diagonal", u.forall((B, N, N), lambda b, a, c: AND(d.at(b, a, c) >= 0, d.at(b, a, a) == 0))),
+                ("bounded", u.forall((B, N, N), lambda b, a, c: d.at(b, a, c) <= dmax)),
+                # Floyd-Warshall: after i rounds every detour over an intermediate node k < i is already accounted for
+                ("triangle-over-earlier-nodes", u.forall((B, N, N, (0, zint(i))), lambda b, a, c, k: d.at(b, a, c) <= d.at(b, a, k) + d.at(b, k, c)))]
+
+    u.loop(ATG, "ATSPGenerator._generate", 0, LoopInvariant(inv, name="floyd-warshall", tags=("C18",)))
+    td = u.run(ATG, "ATSPGenerator._generate", [B], selfobj=gen, record=False)
+    cm = td["cost_matrix"]
+    b, a, c, k = u.idx((B,), "b"), u.idx((N,), "a"), u.idx((N,), "c"), u.idx((N,), "k")
+    u.prove("shape", AND(shape_is(cm, (B, N, N)), sorted(td.keys()) == ["cost_matrix"]))
+    u.prove("zero-diagonal", cm.at(b, a, a) == 0)
+    u.prove("in-range", AND(cm.at(b, a, c) >= 0, cm.at(b, a, c) <= dmax))
+    u.prove("triangle-inequality", cm.at(b, a, c) <= cm.at(b, a, k) + cm.at(b, k, c))
+    u.canary("symmetric", cm.at(b, a, c) == cm.at(b, c, a))
